@@ -33,7 +33,9 @@ def hook(cfg, tshim, mode):
 
     rec = {"apps": [], "c1": None, "c2": None, "mass": None, "temps": [], "ncalls": [0], "dof": None, "runs": []}
     draws = []
-    tshim.recorder = lambda kind, r: (draws.append(r.clone()) if kind == "randn_like" else None) or r
+    # every Gaussian source of the torch namespace is recorded (the oracle must not depend on WHICH function
+    # the implementation uses to draw its normal deviates)
+    tshim.recorder = lambda kind, r: (draws.append(r.clone()) if kind in ("randn_like", "randn", "normal") else None) or r
     L = MDm.Molecular_Dynamics_Langevin
     orig = L._apply_langevin_thermostat
     stat = cfg.get("stat")
@@ -44,6 +46,17 @@ def hook(cfg, tshim, mode):
         orig(self, molecule)
         v1 = molecule.velocities
         if stat:
+            # noise inferred from the update itself: xi = (v1 - c1 v0) / c2 on real atoms (exact for the documented update)
+            c2 = self.langevin_c2
+            ok = (c2 > 0).expand_as(v1)
+            if ok.any():
+                xi = ((v1 - self.langevin_c1 * v0) / torch.where(c2 > 0, c2, torch.ones_like(c2)))[ok]
+                m = rec.setdefault("xi", {"n": 0, "s1": 0.0, "s2": 0.0, "s4": 0.0, "tail2": 0})
+                m["n"] += int(xi.numel())
+                m["s1"] += float(xi.sum())
+                m["s2"] += float((xi**2).sum())
+                m["s4"] += float((xi**4).sum())
+                m["tail2"] += int((xi.abs() > 2.0).sum())
             return
         xi = draws[-1] if len(draws) == n0 + 1 else None
         if not rec["runs"] or rec["runs"][-1]["id"] != id(molecule):
@@ -92,6 +105,7 @@ def hook(cfg, tshim, mode):
 
     def report():
         out = {k: v for k, v in rec.items() if k not in ("acc", "ncalls")}
+        out["xi_moments"] = rec.get("xi")
         if "acc" in rec:
             a = rec["acc"]
             out["stat"] = {"n": a["n"], "mean": (a["sum"] / max(a["n"], 1)).tolist(), "mean2": (a["sum2"] / max(a["n"], 1)).tolist()}
@@ -248,8 +262,10 @@ def _exact(record, root):
     for a in apps:
         stats["applications"] += 1
         if a["ndraws"] != 1 or a["xi"] is None:
-            failures.append(core.fail("noise-draws", f"one thermostat application drew {a['ndraws']} noise tensors, expected 1"))
-            break
+            # the noise of this application could not be attributed to exactly one recorded Gaussian draw: the exact
+            # oracle does not apply (counted; a batch dominated by such applications is vacuous, not violating)
+            stats["unattributed"] = stats.get("unattributed", 0) + 1
+            continue
         v0, v1, xi = np.array(a["v0"]), np.array(a["v1"]), np.array(a["xi"])
         pred = c1 * v0 + c2 * xi
         scale = max(np.abs(v1).max(), np.abs(pred).max(), 1e-300)
@@ -361,6 +377,25 @@ def _stat(record, root):
                 f"mean kinetic temperature {mean_all:.2f} K over {n} steps x {int(ndof_tot)} dof, target {cfg['temp']} K: deviation {rel:.3%} > max(3%, 6 sigma = {6 * sigma:.3%}); pot={cfg['stub']['pot']} dt/tau={cfg['dt'] / cfg['damp']:.3g}",
             )
         )
+    xm = r["report"]["hook"].get("xi_moments")
+    if xm and xm["n"] > 1000:
+        nn = xm["n"]
+        mean = xm["s1"] / nn
+        var = xm["s2"] / nn - mean * mean
+        kurt = (xm["s4"] / nn) / max(xm["s2"] / nn, 1e-300) ** 2
+        tail = xm["tail2"] / nn
+        z = {
+            "mean": abs(mean) * math.sqrt(nn),
+            "variance": abs(var - 1.0) / math.sqrt(2.0 / nn),
+            "kurtosis": abs(kurt - 3.0) / math.sqrt(96.0 / nn),
+            "tail": abs(tail - 0.0455002638964) / math.sqrt(0.0455 * 0.9545 / nn),
+        }
+        stats["max"]["noise_moment_z"] = max(z.values())
+        stats["probes"]["noise_samples_tested"] = nn
+        for name, zz in z.items():
+            if zz > tol["noise_z"]:
+                failures.append(core.fail("noise-not-gaussian", f"the thermostat noise inferred from {nn} velocity updates is not standard normal: {name} deviates by {zz:.1f} sigma (mean {mean:.4f}, variance {var:.4f}, kurtosis {kurt:.4f}, P(|xi|>2) {tail:.4%}); a Maxwell-Boltzmann distribution is not left invariant"))
+                break
     sig = ["stat", cfg["engine"], cfg["stub"]["pot"], cfg["damp"], cfg["temp"]]
     stats["sim_time_fs"] = cfg["steps"] * cfg["dt"]
     return core.Result.make(record, failures, stats, sig=sig, nontrivial=True, sample={"cfg": cfg, "mean_T": mean_all, "n_steps": n, "sigma_rel": sigma}, digest_=core.digest(st))
@@ -377,6 +412,15 @@ class C12(core.Check):
         "independent CODATA-2018 constants; the repository's slightly older constants differ at the 1e-8 level, tolerance 1e-6",
         "the end-to-end temperature layer is deliberately coarse (max(3%, 6 sigma)); layers 1-2 decide the fluctuation-dissipation identity",
     ]
+
+    def vacuous(self, results):
+        stats = {}
+        for r in results:
+            core.merge_counts(stats, r["stats"])
+        un, ap = stats.get("unattributed", 0), stats.get("applications", 0)
+        if ap and un > 0.2 * ap and not any(r["failures"] for r in results):
+            return f"the noise of {un} of {ap} thermostat applications could not be attributed to a recorded Gaussian draw (exact layer not exercised)"
+        return None
 
     def plan(self, tier, seed):
         return [{"i": i, "cfg": gen(core.rng_for(seed, PROP, i), tier)} for i in range(self.runs[tier])]
